@@ -787,6 +787,19 @@ func (en *Env) callExpr(e *ECall) Val {
 			x := en.eval(e.Args[0])
 			y := en.eval(e.Args[1])
 			return boolVal(en.ex.errIs(x, y))
+		case "contains":
+			sv := en.eval(e.Args[0])
+			xv := en.eval(e.Args[1])
+			if sl, ok := sv.T.Underlying().(*types.Slice); ok && xv.K != nil {
+				xv = en.coerce(xv, sl.Elem())
+			}
+			return boolVal(en.ex.containsTerm(en.st, sv, xv))
+		case "hassuffix":
+			a, b := en.eval(e.Args[0]), en.eval(e.Args[1])
+			return boolVal(app(en.ex.declFun("uf|hassuffix", []string{sStr, sStr}, sBool), a.L[0], b.L[0]))
+		case "cutsuffix":
+			a, b := en.eval(e.Args[0]), en.eval(e.Args[1])
+			return Val{T: types.Typ[types.String], L: []string{app(en.ex.declFun("uf|cutsuffix", []string{sStr, sStr}, sStr), a.L[0], b.L[0])}}
 		case "nonnil":
 			// nonnil(x): pointers are not nil; interfaces hold a non-nil pointer
 			x := en.eval(e.Args[0])
